@@ -28,7 +28,12 @@ func (l *Linter) lintAclDeclaration(decl *ast.AclDeclaration, ctx *context.Conte
 		}
 
 		// Otherwise, validate as CIDR
-		c += "/" + cidr.Mask.String()
+		// use the source literal, not String() which would include comments around the mask
+		mask := cidr.Mask.GetMeta().Token.Literal
+		if mask == "" {
+			mask = fmt.Sprint(cidr.Mask.Value)
+		}
+		c += "/" + mask
 		if _, _, err := net.ParseCIDR(c); err != nil {
 			l.Error(InvalidValue(cidr.GetMeta(), "CIDR", c).Match(ACL_SYNTAX))
 		}
